@@ -746,6 +746,45 @@ def check_undeclared_member_carried(inv: Inv, spec, which, rec: Recorder):
              sample=lambda: {"class": k.__name__, "container": tclass.__name__, "wire": wire.hex()[:160]})
 
 
+def check_shared_container_objects(inv: Inv, spec, rec: Recorder):
+    """One container object used for several elements of a list attribute, or for the same-typed attribute of two
+    sibling containers (p = ProxyInfo(...); msg.proxy_info = [p, p]): the message encodes exactly like the one built
+    from equal but distinct objects."""
+    import copy
+    k = inv.by_name[spec["cls"]]
+    if uses_bad_class(inv, spec) or k not in inv.msgs:
+        rec.excluded["class-with-static-finding"] += 1
+        return
+    spec2 = copy.deepcopy(spec)
+    lists = [name for name, v in spec2["attrs"].items()
+             if v["k"] == "l" and len(v["v"]) >= 2 and all(x["k"] == "c" for x in v["v"])]
+    for name in lists:
+        v = spec2["attrs"][name]
+        v["v"] = [copy.deepcopy(v["v"][0]) for _ in v["v"]]
+    try:
+        plain = build_obj(inv, spec2)
+        shared = build_obj(inv, spec2)
+        for o in (plain, shared):
+            o.header.hop_by_hop_identifier, o.header.end_to_end_identifier = 0x11223344, 0x55667788
+        n_shared = 0
+        for name in lists:
+            lst = getattr(shared, name)
+            for i in range(1, len(lst)):
+                lst[i] = lst[0]
+                n_shared += 1
+        want = plain.as_bytes()
+        got = shared.as_bytes()
+    except Exception as e:
+        rec.violation(f"C03/shared-object/raises/{type(e).__name__}", {"shared_objects": True, "spec": spec}, f"{k.__name__}: {e!r}"[:300])
+        return
+    if got != want:
+        rec.violation("C03/shared-object/encoding-differs", {"shared_objects": True, "spec": spec},
+                      f"{k.__name__}: with one object in {n_shared + len(lists)} slots of {lists} the message has {len(got)} bytes, "
+                      f"with equal distinct objects {len(want)} bytes")
+    rec.case(fp("shared", hash(want)) if n_shared else None, ["mode:shared-container-object" if n_shared else "mode:shared-container-object:none"],
+             sample=lambda: {"class": k.__name__, "lists": lists})
+
+
 def check_concurrent(inv: Inv, t, rec: Recorder):
     """Typed messages are decoded (and one is built and encoded) by two or three threads at once, from the module
     state of a fresh process: every thread's result is the one it gets when the same calls run one after the other."""
@@ -862,6 +901,11 @@ def shard_main(shard, nshards, tier, scale):
     n_un = int((8000 if thorough else 500) * scale)
     hyp.run_given(untyped_message(inv, codes), lambda ms: check_untyped(inv, ms, rec), n_un,
                   derive_seed(PID, "untyped", shard), rec=rec)
+    # one container object in several slots of a message
+    hyp.run_given(st.sampled_from(msgs_only).flatmap(lambda k: obj_spec(inv, k, 0, mode="all")),
+                  lambda sp: check_shared_container_objects(inv, sp, rec), int((3000 if thorough else 250) * scale),
+                  derive_seed(PID, "shared-objects", shard), rec=rec)
+
     # undeclared members inside grouped AVPs of received messages
     ustrat = st.tuples(st.sampled_from(msgs_only).flatmap(lambda k: obj_spec(inv, k, 0, mode="all")), st.integers(0, 50))
     hyp.run_given(ustrat, lambda t: check_undeclared_member_carried(inv, t[0], t[1], rec),
@@ -901,7 +945,7 @@ def run(tier, scale=1.0):
     rec.extra["definitions_excluded_by_static_findings"] = len(inv.bad_defs)
     if missing:
         rec.extra["definitions_not_covered"] = [".".join(m) for m in missing[:20]]
-    required = {"mode:undeclared-member": 1, "undeclared-member:container-has-room:False": 1, "undeclared-member:container-has-room:True": 1, "mode:concurrent": 1, "concurrent:same-class:True": 1, "concurrent:tasks:3": 1, "concurrent:switches:6": 1, "mode:encode-after-failed-encode": 1, "failed-encode:raised": 1, "mode:change-after-encode": 1, "mode:single": 1, "mode:subset": 1, "mode:all": 1, "mode:none": 1, "kind:container": 1,
+    required = {"mode:shared-container-object": 1, "mode:undeclared-member": 1, "undeclared-member:container-has-room:False": 1, "undeclared-member:container-has-room:True": 1, "mode:concurrent": 1, "concurrent:same-class:True": 1, "concurrent:tasks:3": 1, "concurrent:switches:6": 1, "mode:encode-after-failed-encode": 1, "failed-encode:raised": 1, "mode:change-after-encode": 1, "mode:single": 1, "mode:subset": 1, "mode:all": 1, "mode:none": 1, "kind:container": 1,
                 "kind:message": 1, "kind:untyped": 1, "with-extra": 1, "extra-code-collision": 1, "nest:4": 1,
                 "untyped:repeat": 1, "untyped:grouped": 1}
     rc = finish(rec, tier=tier, level="exploration", rule=RULE, assumptions=ASSUME, t0=t0,
@@ -918,7 +962,9 @@ def replay(doc):
     inv = Inv()
     static_check(inv, rec)
     case = doc["case"]
-    if case.get("undeclared_member"):
+    if case.get("shared_objects"):
+        check_shared_container_objects(inv, case["spec"], rec)
+    elif case.get("undeclared_member"):
         check_undeclared_member_carried(inv, case["spec"], case["which"], rec)
     elif case.get("concurrent"):
         CT.install_points()
